@@ -27,4 +27,10 @@ theorem level_roundtrip (f l : Fin 256) :
   · rw [hb, h0 l]; simp [hb]
   · rw [hb, h1 l]; by_cases h11 : l.val = 11 <;> simp [h11, hb]
 
+/-- Table A-1: exactly the level_idc values 10, 11, 12, 13, 20, 21, 22, 30, 31, 32, 40, 41, 42, 50, 51, 52, 60, 61, 62 are named levels
+(whatever the constraint flags); every other value is carried as `Unknown(idc)` -/
+theorem level_known : levelKnown.length = 256 ∧ ∀ l : Fin 256,
+    levelKnown.getD l.val 9 = (if [10, 11, 12, 13, 20, 21, 22, 30, 31, 32, 40, 41, 42, 50, 51, 52, 60, 61, 62].contains l.val then 1 else 0) := by
+  decide +kernel
+
 end C20
